@@ -101,7 +101,13 @@ fn check<T: Copy, const SZ: usize>(ft: FixedStructType, control: bool) {
     let tvsz = ft.size_tv();
     assert!(off + tvsz <= SZ);
     let v: T = unsafe { core::ptr::read_unaligned(bytes.as_ptr() as *const T) };
-    let sort_key = ft.tv_pair_from_buffer(&bytes[off..off + tvsz]);
+    // as FixedStructReader::preprocess_timevalues does: size_tv() bytes of the record are copied into a zeroed scratch buffer of
+    // TIMEVAL_SZ_MAX bytes and the decoder is given that slice -- a size_tv() smaller than what the decoder reads leaves zeros there
+    assert!(tvsz <= TIMEVAL_SZ_MAX);
+    let mut scratch: [u8; TIMEVAL_SZ_MAX] = [0; TIMEVAL_SZ_MAX];
+    let mut i__ = 0;
+    while i__ < tvsz { scratch[i__] = bytes[off + i__]; i__ += 1; }
+    let sort_key = ft.tv_pair_from_buffer(&scratch[..tvsz]);
     match embedded_time(ft, DynPtr { v }) {
         Ok(t) => {
             // C08: records are ordered by their own embedded time
